@@ -2,24 +2,25 @@
 # tools/confirm_seed.sh <PROP> <i> : confirm a sub-agent's seeded change in a scratch worktree and, if confirmed,
 # store it as /verif/seeded/<PROP>-<i>/ (patch.diff, demo.py, note.txt, meta.json)
 P="$1"; I="$2"
-SRC=/tmp/seed/out/$P
-WT=/tmp/seedchk/$P-$I
+SRC=${3:-/tmp/seed/out/$P}
+T=${4:-$I}
+WT=/tmp/seedchk/$P-$T
 mkdir -p /tmp/seedchk
 git -C /repo worktree add -q --detach "$WT" HEAD || exit 2
 clean=$(HSZINC_REPO=$WT /venv/bin/python $SRC/demo$I.py >/dev/null 2>&1; echo $?)
 if ! git -C "$WT" apply $SRC/change$I.diff 2>/tmp/seedchk/apply.err; then
-  echo "$P-$I: patch does not apply to current HEAD: $(head -2 /tmp/seedchk/apply.err)"; git -C /repo worktree remove --force "$WT"; exit 3
+  echo "$P-$T: patch does not apply to current HEAD: $(head -2 /tmp/seedchk/apply.err)"; git -C /repo worktree remove --force "$WT"; exit 3
 fi
 mut=$(HSZINC_REPO=$WT /venv/bin/python $SRC/demo$I.py >/tmp/seedchk/demo.out 2>&1; echo $?)
 tests=$(cd $WT && /venv/bin/python -m pytest -q -p no:cacheprovider 2>&1 | tail -1)
 fails=$(cd $WT && /venv/bin/python -m pytest -q -p no:cacheprovider 2>&1 | grep -c "^FAILED" )
 odd=$(cd $WT && /venv/bin/python -m pytest -q -p no:cacheprovider 2>&1 | grep "^FAILED" | grep -vc test_oddball_version)
 git -C /repo worktree remove --force "$WT"
-echo "$P-$I: demo clean=$clean mutated=$mut ; tests: $tests ; non-baseline failures=$odd"
+echo "$P-$T: demo clean=$clean mutated=$mut ; tests: $tests ; non-baseline failures=$odd"
 if [ "$clean" = 0 ] && [ "$mut" = 1 ] && [ "$odd" = 0 ] && [ "$fails" = 2 ]; then
-  D=/verif/seeded/$P-$I; mkdir -p $D
+  D=/verif/seeded/$P-$T; mkdir -p $D
   cp $SRC/change$I.diff $D/patch.diff; cp $SRC/demo$I.py $D/demo.py; cp $SRC/note$I.txt $D/note.txt
-  python3 - "$P" "$I" "$tests" <<'PY'
+  python3 - "$P" "$T" "$tests" <<'PY'
 import json, sys, subprocess
 P, I, tests = sys.argv[1:4]
 note = open('/verif/seeded/%s-%s/note.txt' % (P, I)).read()
@@ -31,7 +32,7 @@ json.dump(dict(property=P, source='independent sub-agent given only the property
                detected_by=None),
           open('/verif/seeded/%s-%s/meta.json' % (P, I), 'w'), indent=1)
 PY
-  echo "  stored in /verif/seeded/$P-$I"
+  echo "  stored in /verif/seeded/$P-$T"
 else
   echo "  NOT confirmed"; head -5 /tmp/seedchk/demo.out
 fi
